@@ -45,6 +45,16 @@ impl Builder {
         }
     }
 
+    /// Verification hook: builds a reader from an arbitrary buffered reader, running the same
+    /// detection and construction code as [`Builder::build`].
+    #[cfg(feature = "verif")]
+    pub fn verif_build_from_reader<R>(self, reader: R) -> io::Result<super::DynReader>
+    where
+        R: 'static + io::BufRead,
+    {
+        self.build_from_reader(reader)
+    }
+
     fn build_from_reader<R>(self, mut reader: R) -> io::Result<super::DynReader>
     where
         R: 'static + io::BufRead,
